@@ -80,6 +80,13 @@ def rule_nsig(prog: Program, col: Collector) -> None:
         required_kwonly = [x.arg for x, d in zip(a.kwonlyargs, a.kw_defaults) if d is None and x.arg not in kwargs]
         nreq = len(pos) - len(a.defaults)
         unbound_required = [p for p in pos[2 + len(args):nreq] if p not in kwargs]
+        gp = _gen_param(ref)
+        first_ann = ast.unparse(a.posonlyargs[0].annotation if a.posonlyargs else a.args[0].annotation) if (a.posonlyargs or a.args) and \
+            (a.posonlyargs[0] if a.posonlyargs else a.args[0]).annotation is not None else ""
+        role_ok = len(pos) >= 2 and gp == pos[1 + len(args)] if len(pos) > 1 + len(args) else False
+        role_ok = role_ok and (first_ann in ("int", "") or "int" in first_ann)
+        col.check(role_ok, where, ref.short, f"GENERATORS[{key!r}]: the target's positionals are (number_of_players: int, <random generator>)",
+                  construct=f"entry-roles:{key}", necessity="a target whose second positional is not the random generator cannot be seeded by the caller")
         col.check(ok_pos and not bad_kw and not collide and not required_kwonly and not unbound_required, where, ref.short,
                   f"GENERATORS[{key!r}] -> {ref.short}({', '.join(pos[:2])}, ...) accepts the convention; bound keywords {sorted(kwargs)} are its parameters"
                   + (f" [unknown {bad_kw}, colliding {collide}, unbound {unbound_required + required_kwonly}]" if bad_kw or collide or unbound_required or required_kwonly else ""),
